@@ -388,4 +388,8 @@ R.add('L14.3', l143, [dict(which=w) for w in ('client_hello', 'server_hello', 'c
       bounds='3 fully symbolic bytes | right type id + <= 3 arbitrary fields (opaque bytes / int / None)',
       step_limit=5000)
 
+for _lid in ['L14.1', 'L14.2', 'L14.3']:
+    if _lid in R.lemmas:
+        R.lemmas[_lid].api = True
+
 get_harness = R.get_harness
